@@ -604,6 +604,59 @@ theorem c20_gen_getListenAddress_eq (a l : Str) :
             | none => simp [R.ofGen]
             | some y => simp [R.ofGen]
 
+/-- `schemeToPort` (websocket_client.go, a `switch`) as translated = the model's -/
+theorem c20_gen_schemeToPort_eq (s : Str) : Gen.C20.schemeToPort s = schemeToPort s := by
+  unfold Gen.C20.schemeToPort schemeToPort http https
+  by_cases h1 : s = [104, 116, 116, 112]
+  · simp [h1]
+  · by_cases h2 : s = [104, 116, 116, 112, 115] <;> simp [h1, h2]
+
+/-- `getWSHostPort` as translated, with `url.Parse` as a parameter, = the model's `wsHostPort` on what the parser
+returned (64-bit `portRaw+1` and the conversions `uint16(…)` keep their `%`; the model's order of evaluation differs
+from Go's only where `Host()` would panic, which `c20_total` excludes) -/
+theorem c20_gen_getWSHostPort_eq (si : SI) (global : Bool) (urlParse : Str → Option Url) :
+    R.ofGen (Gen.C20.getWSHostPort si global urlParse) =
+      wsHostPort si.Address (if si.URL = [] then none else some (UrlParts.ofParse (urlParse si.URL))) global := by
+  unfold Gen.C20.getWSHostPort wsHostPort
+  simp only [c20_gen_schemeToPort_eq, c20_gen_Address_Port_eq, c20_gen_Address_Host_eq]
+  by_cases hu : si.URL = []
+  · simp only [hu, if_true]
+    obtain ⟨_, _, hh, hp, _⟩ := c20_total si.Address
+    cases hho : host si.Address with
+    | none => simp [hho] at hh
+    | some h =>
+      cases hpo : port si.Address with
+      | none => simp [hpo] at hp
+      | some p =>
+        dsimp only
+        cases hpu : parseUint16 p with
+        | none => simp [R.ofGen]
+        | some n =>
+          have hn := parseUint16_some hpu
+          have hm : (n + 1) % 18446744073709551616 = n + 1 := Nat.mod_eq_of_lt (by omega)
+          dsimp only
+          rw [hm]
+          by_cases hbig : n + 1 ≥ 65536
+          · simp [R.ofGen, hbig]
+          · cases global <;> simp [R.ofGen, hbig]
+  · have hb : (si.URL != []) = true := by simpa using hu
+    simp only [hb, hu, if_true, if_false]
+    cases hp : urlParse si.URL with
+    | none => simp [UrlParts.ofParse, R.ofGen]
+    | some u =>
+      obtain ⟨ab, sc, po, hn⟩ := u
+      simp only [UrlParts.ofParse]
+      cases ab
+      · simp [R.ofGen]
+      · cases hsp : schemeToPort sc with
+        | none => simp [R.ofGen]
+        | some pp =>
+          by_cases hpe : po = []
+          · cases global <;> simp [R.ofGen, hpe]
+          · cases hpu : parseUint16 po with
+            | none => simp [R.ofGen, hpe]
+            | some n => cases global <;> simp [R.ofGen, hpe]
+
 end GenEq
 
 /-! ### the code regions the model stands for
